@@ -35,7 +35,7 @@ def error_invariance(cfg):
         require_same(e1, e0, "%s: error changes when every vertex is left-composed with T" % cfg_name(cfg))
         no_bad_wrap(it)
         return dict(terms=nterms(e0))
-    return lambda pkg: run_obligation(pkg, fn)
+    return lambda pkg: run_obligation(pkg, fn, divisors=lambda name: True)
 
 
 def jacobian_covariance(cfg, k):
@@ -53,7 +53,7 @@ def jacobian_covariance(cfg, k):
                          "%s: Jacobian of point vertex %d is not equivariant (J' R_T != J)" % (cfg_name(cfg), k))
             mode = "equivariant J' R_T = J"
         return dict(terms=nterms(J0[k]), mode=mode)
-    return lambda pkg: run_obligation(pkg, fn)
+    return lambda pkg: run_obligation(pkg, fn, divisors=lambda name: True)
 
 
 def update_equivariance(cfg, k):
@@ -76,7 +76,7 @@ def update_equivariance(cfg, k):
         pose_equal(it, lhs, rhs, "%s: update of vertex %d does not commute with the frame change" % (cfg_name(cfg), k), allow_neg_quat=False)
         return dict(terms=nterms(lhs), mode=mode)
     hook = qnorm_le_one_hook(["d[3]", "d[4]", "d[5]"]) if tk == "PoseSE3" else None
-    return lambda pkg: run_obligation(pkg, fn, hook=hook)
+    return lambda pkg: run_obligation(pkg, fn, hook=hook, divisors=lambda name: True)
 
 
 def run(run_, pkg, tier):
